@@ -262,6 +262,7 @@ class ndarray:
         if root is None:
             self.owner = owner
             self.writes = 0
+            self.writeable = True
 
     # -- construction helpers ------------------------------------------------------
     @classmethod
@@ -447,8 +448,18 @@ class ndarray:
     def _bool_positions_of(self, cond):
         return [i for i, c in enumerate(cond.a.flat) if bool(c)]
 
+    @property
+    def flags(self):
+        return types.SimpleNamespace(writeable=self.root.writeable, owndata=self.root is self)
+
+    def setflags(self, write=None, **kw):
+        if write is not None:
+            self.root.writeable = bool(write)
+
     def _note_write(self):
         r = self.root
+        if not r.writeable:
+            raise ValueError("assignment destination is read-only")
         r.writes += 1
         if r.owner != "local":
             ex = _ex.current(optional=True)
@@ -2194,3 +2205,22 @@ lib = types.SimpleNamespace(stride_tricks=types.SimpleNamespace(as_strided=_as_s
 
 class _Testing:
     pass
+
+
+def count_nonzero(a, axis=None):
+    a = a if isinstance(a, ndarray) else asarray(a)
+    if axis is not None:
+        raise Unsupported("count_nonzero(axis)")
+    if a._is_masked:
+        a = a._data_arr()
+    acc = SInt(0)
+    for x in a.a.flat:
+        acc = acc + cast_scalar(x, _np.dtype("bool"))._as_int()
+    return acc
+
+
+def __getattr__(name):
+    from .values import UnsupportedAttribute
+    if name.startswith("__"):
+        raise AttributeError(name)
+    raise UnsupportedAttribute(f"numpy.{name}")
